@@ -430,9 +430,16 @@ impl SimDisk {
 }
 
 impl Clone for SimDisk {
-    /// A cloned reader: own cursor, same (read-only) bytes, same policy engine and log.
+    /// A cloned reader: own cursor, same (read-only) bytes, and its own instance of the same policy
+    /// (so that one handle's I/O decisions never depend on how other handles are interleaved).
     fn clone(&self) -> SimDisk {
-        SimDisk { store: self.store.clone(), pos: self.pos, io: self.io.clone() }
+        let (policy, budget) = {
+            let g = lock(&self.io);
+            (g.policy.clone(), g.budget)
+        };
+        let io = ioh(policy);
+        set_budget(&io, budget);
+        SimDisk { store: self.store.clone(), pos: self.pos, io }
     }
 }
 
